@@ -116,14 +116,16 @@ class Gen:
             d = self.free_slot()
             if d is None: return self.kill()
             k = r.choice(['val', 'val', 'array', 'array', 'list', 'table', 'tree'])
+            # `w …`: the object is made with new_root by a worker thread that ends at once; the main thread joins and keeps it
+            pre = ['w'] if r.random() < 0.10 else []
             if k == 'val':
                 ty = r.choice('IS'); v = self.val(ty); self.s[d] = dict(kind='val', ty=ty, data=v)
-                self.emit(r.choice(['nv', 'nv', 'nv', 'nv', 'nvr', 'nvo']), d, v)       # new / new_raw / new_root
+                self.emit(*pre, 'nvo' if pre else r.choice(['nv', 'nv', 'nv', 'nv', 'nvr', 'nvo']), d, v)       # new / new_raw / new_root
             elif k in ('array', 'list'):
                 ty = r.choice('IS'); n = r.choice([0, 0, 1, 2, 3, 5, 8, 20]); vs = [self.val(ty) for _ in range(n)]
-                self.s[d] = dict(kind=k, ty=ty, data=list(vs)); self.emit('na' if k == 'array' else 'nl', d, ty, *vs)
+                self.s[d] = dict(kind=k, ty=ty, data=list(vs)); self.emit(*pre, 'na' if k == 'array' else 'nl', d, ty, *vs)
             else:
-                kt, vt = r.choice('IS'), r.choice('IS'); self.s[d] = dict(kind=k, ty=kt, vt=vt, data={}); self.emit('nt' if k == 'table' else 'nr', d, kt, vt)
+                kt, vt = r.choice('IS'), r.choice('IS'); self.s[d] = dict(kind=k, ty=kt, vt=vt, data={}); self.emit(*pre, 'nt' if k == 'table' else 'nr', d, kt, vt)
         elif op == 'kill': self.kill()
         elif op == 'push':
             c = self.pick(seq)
@@ -340,6 +342,35 @@ class Gen:
         for d in made:
             self.emit('show', d); self.emit('hash', d)
             if r.random() < 0.7: del self.s[d]; self.emit('del', d)
+    def worker_scenario(self, i):
+        """objects that cross the END of a collector: a worker thread makes three objects with new_root (value / Array / Table / List / Tree
+        in rotation), publishes them through C globals and ends — its collector is torn down (GC_Unmark + GC_Sweep, no mark phase) — the
+        main thread joins, reads them, changes them, allocates until its own collector has run, reads them again.  Such an object can no
+        longer be released by anybody (del_root asks the calling thread's collector): it stays until the process ends"""
+        r = self.r; made = []
+        kinds = ['val', 'array', 'table', 'list', 'tree']
+        for j in range(3):
+            d = self.free_slot()
+            if d is None: break
+            k = kinds[(i + j) % 5]
+            if k == 'val':
+                ty = 'SI'[(i // 5 + j) % 2]; v = self.val(ty); self.s[d] = dict(kind='val', ty=ty, data=v); self.emit('w', 'nvo', d, v)
+            elif k in ('array', 'list'):
+                ty = r.choice('IS'); vs = [self.val(ty) for _ in range(r.choice([0, 1, 3, 5, 8]))]
+                self.s[d] = dict(kind=k, ty=ty, data=list(vs)); self.emit('w', 'na' if k == 'array' else 'nl', d, ty, *vs)
+            else:
+                kt, vt = r.choice('IS'), r.choice('IS'); self.s[d] = dict(kind=k, ty=kt, vt=vt, data={}); self.emit('w', 'nt' if k == 'table' else 'nr', d, kt, vt)
+            made.append(d)
+        if not made: return
+        saved, savedp, savedo = self.s, self.p, self.ooc
+        self.s = {d: saved[d] for d in made}
+        self.p = dict(push=4, pop=1, read=4, set=1, mset=6, mread=4, mrem=1, vset=1, edit=3, cmp=1, sort=1); self.ooc = 0.0
+        for _ in range(r.randrange(6, 14)): self.step()
+        for _ in range(r.choice([2, 3])): self.emit('hchurn', r.choice([200, 300, 400]))
+        if i % 2: self.emit('gc')
+        for _ in range(r.randrange(4, 10)): self.step()
+        self.s, self.p, self.ooc = saved, savedp, savedo
+        for d in made: self.emit('show' if saved[d]['kind'] == 'val' else 'items', d)
     def edit_scenario(self, i):
         """a String object of each way of coming into being (new / new_raw / new_root / copy), a String Array or List, a Table or Tree with
         String keys and values: every selector used at least once, then everything read back"""
@@ -943,6 +974,12 @@ class C18(Spec):
                   'C18_root_flag_reaches_collector_tests (decide over the regenerated tables): the root argument arrives in the member GC_Sweep and GC_Mark test, a new entry starts unmarked, GC_Set_Ptr holds the only initialiser, nothing else writes the flag, GC_Rehash re-inserts with it, '
                   'alloc_root registers with $I(1) - `bool marked; bool root;` against the positional `{ ptr, ihash, root, 0 }` breaks it; it is the hypothesis (Keep.RootWired) under which every keep theorem above is proved for programs that ALSO keep containers as roots outside the collector`s view; '
                   'C18_root_flag_needed: with the flag not stored the smallest such program loses its root at the first collection (lemma kcollectW_unwired_loses_root through C01`s gcMark_iff_reach). '
+                  'OBJECTS THAT CROSS THE END OF A COLLECTOR (extension round): every thread has its own collector, torn down by GC_Del = GC_Unmark; GC_Sweep (no mark phase) when the thread function has returned (Thread_Init_Run) or the process ends (Cello_Exit), so whether a block outlives the collector it was registered with is decided by the scanning loop of GC_Sweep alone. '
+                  'translate/g_cfg.py regenerates that loop as a decision list over the members of struct GCEntry (gcSweepLoop: skip / free / next, each with its conjunction of member tests), the members GC_Unmark clears, the phase sequences of GC_Del and GC_Set, the prologue of GC_Mark, and Thread_Init_Run statement by statement with its #ifndef CELLO_NGC guards (threadRunEvents); Cello/ConfigThread.lean evaluates them on the entry GC_Set_Ptr`s initialiser builds (Thr.sweepFrees, Thr.teardown, Thr.workerRun, Thr.runThread). '
+                  'C18_teardown_spares_roots (decide over the regenerated tables): the loop releases an occupied slot exactly when it carries neither the root argument nor the mark bit, GC_Del = GC_Unmark; GC_Sweep, a collection = GC_Mark; GC_Sweep with GC_Unmark first - dropping the root test ("roots are marked by GC_Mark anyway") breaks it; '
+                  'C18_roots_outlive_their_collector: for EVERY worker history (allocations by new / new_raw / new_root in any order, threshold collections at any moments with any reach set) and every configuration no block made with new_root or new_raw has been released when the thread has ended (invariant proof, Lemmas/CfgThread.lean); C18_worker_results_config_independent: the same blocks are roots in any two builds and each is alive after join in both; '
+                  'C18_worker_plain_result_refuted: without the restriction to roots the statement is false (KF-C13-join-result-finalised); C18_unguarded_sweep_loop_refuted: the loop without the root test keeps roots through collections and loses them at the teardown; C18_thread_collector_brackets_thread_function: run in the order of Thread_Init_Run a started thread IS Thr.workerRun in every configuration (collector made before the thread function, torn down after it, only these statements guarded); '
+                  'C18_joined_step_is_raw_step: for the joiner the object is a block no collector manages (the workload model`s `w` step is the new_raw step). '
                   'C18_alloc_guards_classify: over all four classes the guards of a function fire exactly where it is undefined '
                   'without them; C18_edit_never_refused_for_its_class: no in-place edit is refused for where its target lives, in any build.')
     level_note = ('PARTIAL by nature: the compiler is not modelled; optimisation levels and the real effect of the switches on the C code are '
@@ -975,6 +1012,9 @@ class C18(Spec):
             'use of a root in its own frame, so nothing but the root flag of the registry entry keeps a root (and the Tracked objects it holds) alive through the threshold collections that `hchurn` (up to 400 allocations each, 2-4 in a row: several collections and rehashes of the registry) forces; '
             'after every operation every holder and every new_root object the program still holds must be registered with the collector (public API mem(current(GC), obj), which does not touch the object): a reclaimed root is an oracle failure before freed memory is read; '
             'one directed root scenario (the eight kinds in rotation: fill, pressure, read back, insert/remove, rehash, pressure, read back, del_root or keep) and two new_root value objects (pressure, read, edit in place, pressure, read, del_root) per case; '
+            'WORKER-MADE ROOTS `w nvo|na|nl|nt|nr …` (modelled, O lines): a Cello Thread is started whose function allocates ordinary garbage, makes the object with new_root / new_root_with (String, Int, Array, List, Table, Tree of Int / String), stores the pointer in a C global (masked) and returns - '
+            'Thread_Init_Run tears the worker`s collector down - the main thread joins and from then on reads and changes the object with every operation of the workload (get, iteration, set, push, sort, map set / rem, in-place edits, copy, compare, hash, formats) across its own threshold collections; oracle: before the object is touched after join and before / after every later operation its block must not have been freed (ASan: header not poisoned) and its header must name its type '
+            '(X worker-root-destroyed-at-thread-end / -after-thread-end), then the usual contents check against the shadow; one directed worker scenario per case (three objects, kinds in rotation, 10-24 operations on them with allocation pressure in between) and ~10% of all constructions of the random part; '
             'a destructor ledger audited after every operation: no stored object finalised, none '
             'twice, del finalises at once; `hexit`: process exit in a forked child, the ledger read by a destructor-attribute function after Cello_Exit — one directed exit scenario per case, at a moment when everything made was deleted by the program), nine profiles (mixed, sequences, maps with colliding keys, '
             'allocation churn with dropped objects, views, tuples, keep, edits; every case starts with one directed keep scenario (the ten kinds in rotation), '
@@ -990,10 +1030,12 @@ class C18(Spec):
                     'the model abstracts objects to values (no addresses): layouts (header size, cache words) are covered by the table theorems and the build matrix',
                     'run-time types: Cello/Dispatch.lean (record level, Type_Scan / Type_Instance, C08) is imported as it is; the C-integer semantics of index expressions is evaluated in Z (a negative intermediate is not wrapped)',
                     'roots: that the static cells, the XOR mask and the stack scrubbing of harness/h_cfg.c really hide the pointer from the conservative scan is not proved (on the unchanged tree it cannot matter: the root flag keeps the object; on a changed tree a surviving stray copy can only hide a failure, and the registry audit does not depend on it)',
+                    'worker-made roots: GC_Probe / the back-shift of GC_Sweep, GC_Resize_Less and the release loop are not part of the decision list (their model is C17`s Cello/Registry.lean); that a freed block is recognised (ASan poisoning, else the wiped / reused header) is the harness oracle`s assumption; container objects made by a worker are registered with the MAIN collector in the joiner`s model state (Op.nseq / Op.nmap have no allocation mode), value objects are not (new_raw step) - neither is observable',
                     'keep programs: Cello/Heap.lean (marker, C01) and Cello/Table.lean (slot placement, C02) are imported as they are; the model collects when ITS registry count passes the threshold, the real collector at other moments (the registry also holds the rest of the workload): C18_keep_collection_schedule_irrelevant is what bridges the two; Tree shape is not modelled (Tree_Mark = in-order walk over all nodes)')
     assumptions = ('in-contract programs only: every operation is validated against the harness shadow first; bad index, absent key, wrong element type, dead handle are refused before the call',
                    'known-finding territory avoided: Table/Tree equality and hashing (F06), Slice with stop/step (F11), Zip backward (F12), repeated pointers in Tuples (F13), del while the collector is stopped (F23), Box elements (F28), print_to error paths (F29)',
-                   'single thread, except `hrun`: one started thread at a time that only reads, while the main thread waits in join (no collection of the main thread`s collector while another thread runs: the unsynchronised walk of a running thread`s table is known finding KF-C13-mark-foreign-tls); no allocation failure; String values <= 30 bytes, containers <= 120 elements',
+                   'worker-made roots (`w …`): the worker publishes only what it made with new_root (a result made with plain new is finalised by the worker`s teardown: KF-C13-join-result-finalised) and only containers of Int / String, whose storage is plain malloc memory; nobody can release such an object once its thread has ended - del_root from another thread asks that thread`s collector, which ignores a block it does not know (KF-C19-del-silent) while a CELLO_NGC build destructs and frees it: a memory-only difference the workload stays out of - `del` / `drop` of such a handle only forgets it, the object stays until the process ends (String / Int / containers of them: destructors only release memory, so the exit-time sweep of KF-C18-exit-finalisation, which does not reach them anyway, is not observable)',
+                   'single thread, except `w` (the worker allocates and ends before the main thread continues) and `hrun`: one started thread at a time that only reads, while the main thread waits in join (no collection of the main thread`s collector while another thread runs: the unsynchronised walk of a running thread`s table is known finding KF-C13-mark-foreign-tls); no allocation failure; String values <= 30 bytes, containers <= 120 elements',
                    'in-place edits: text [0-9A-Za-z_]*, results <= 30 bytes, print_to position within the text; keys of a Table/Tree are only rewritten with their own value (anything else breaks the map and is out of contract); stack and static Strings are never edited (not defined: their buffer is not a malloc block; that the guards fire there is theorem C18_alloc_guards_classify, the behaviour itself belongs to C12/C19)',
                    'nested holders: <= 8 holders x 12 inner objects x 24 items; embedded Tuples hold built-in Type objects only (static, never freed: known finding KF-C01-dangling-tuple-item avoided) and no object twice (F13); inner containers only shrink by resize',
                    'roots: a container made with new_root is released with del_root; forgetting the only pointer to it (`hdrop` of a rooted holder) leaks it in every build and is refused as out of contract; no roots of thread-local storage / Thread objects; run-time types and their objects made by the `root` routes are still held in variables of main (their root flag is not what keeps them)',
@@ -1028,6 +1070,8 @@ class C18(Spec):
             # reference lives where the collector does not look, under enough allocation to force several collections
             g.keep.root_scenario(ROOT_KINDS[i % len(ROOT_KINDS)])
             g.root_value_scenario(i)
+            # three objects made with new_root by a worker thread that has ended, read and changed by the main thread after join
+            g.worker_scenario(i)
             # one directed edit scenario per case: a String container of each family, every selector applied at once; and one nested holder
             g.edit_scenario(i)
             g.nest.scenario('altr'[i % 4], 'ALU'[(i // 4) % 3])
@@ -1081,6 +1125,10 @@ class C18(Spec):
         if nr: acc['root_holders_made'] = acc.get('root_holders_made', 0) + nr
         nr = sum(1 for l in case.lines if l.startswith('nvo '))
         if nr: acc['root_value_objects_made'] = acc.get('root_value_objects_made', 0) + nr
+        m = re.search(r'I worker-threads=(\d+) worker-values=(\d+) worker-seqs=(\d+) worker-maps=(\d+)', c_out)
+        if m:
+            for k, g in (('impl_worker_threads_joined', 1), ('impl_worker_made_value_roots', 2), ('impl_worker_made_sequence_roots', 3), ('impl_worker_made_map_roots', 4)):
+                acc[k] = acc.get(k, 0) + int(m.group(g))
         m = re.search(r' thread-runs=(\d+)', c_out)
         if m: acc['impl_thread_holder_runs'] = acc.get('impl_thread_holder_runs', 0) + int(m.group(1))
         m = re.search(r' edits=(\d+) elem-edits=(\d+) nested-ops=(\d+)', c_out)
